@@ -796,6 +796,8 @@ class Exec:
             else: L[d] = z3.ZeroExt(w - sw, v) if op == 'zext' else z3.SignExt(w - sw, v)
         elif op in ('sitofp', 'uitofp'):
             v = s.val(st, x['a']); sw = x['a'].ty.bits
+            if isinstance(v, bool): v = int(v)
+            elif not isc(v) and z3.is_bool(v): v = s.bv(v, sw)
             if s.fpmode == 'real':
                 if isc(v):
                     if op == 'sitofp' and v >> (sw - 1): v -= 1 << sw
@@ -1256,6 +1258,13 @@ class Exec:
             cond = {'isdigit': dig, 'isalpha': z3.Or(up, lowr), 'isalnum': z3.Or(up, lowr, dig), 'isspace': z3.Or(c == 32, rng(9, 13)), 'isupper': up, 'islower': lowr, 'isprint': rng(32, 126),
                     'ispunct': z3.Or(rng(33, 47), rng(58, 64), rng(91, 96), rng(123, 126)), 'isxdigit': z3.Or(dig, rng(65, 70), rng(97, 102))}[name]
             return z3.If(cond, z3.BitVecVal(1, 32), z3.BitVecVal(0, 32))
+        if name == '__cxa_guard_acquire':
+            # function-local static: initialise when the guard byte is still 0
+            g = s.load_val(st, a[0], I8)
+            return 1 if (isc(g) and g == 0) else 0
+        if name == '__cxa_guard_release':
+            s.store_val(st, a[0], I8, 1); return 0
+        if name == '__cxa_guard_abort': return 0
         if name == 'difftime':
             s.stats['stubs'].add('difftime(a,b) = (double)a - (double)b')
             def tod(v):
